@@ -161,7 +161,7 @@ enum Via {
 }
 
 /// Run the real local handshake for one request; returns what the client would tunnel to.
-async fn handshake(req_bytes: Vec<Vec<u8>>) -> Result<Result<Address, String>, String> {
+async fn handshake(req_bytes: Vec<Vec<u8>>, gap_ms: Option<u64>) -> Result<Result<Address, String>, String> {
     let l = tokio::net::TcpListener::bind("127.0.0.1:0").await.map_err(|e| e.to_string())?;
     let addr = l.local_addr().map_err(|e| e.to_string())?;
     let app = tokio::spawn(async move {
@@ -171,8 +171,14 @@ async fn handshake(req_bytes: Vec<Vec<u8>>) -> Result<Result<Address, String>, S
         for (k, part) in req_bytes.iter().enumerate() {
             s.write_all(part).await.ok()?;
             if k + 1 < req_bytes.len() {
-                // protocol phases: wait for the reply to this phase before the next one
-                let _ = tokio::time::timeout(Duration::from_secs(5), s.read(&mut reply)).await;
+                match gap_ms {
+                    // one message in several segments: the next piece follows after a pause, no reply is awaited
+                    Some(ms) => tokio::time::sleep(Duration::from_millis(ms)).await,
+                    // protocol phases: wait for the reply to this phase before the next one
+                    None => {
+                        let _ = tokio::time::timeout(Duration::from_secs(5), s.read(&mut reply)).await;
+                    }
+                }
             }
         }
         let _ = tokio::time::timeout(Duration::from_secs(5), s.read(&mut reply)).await;
@@ -227,19 +233,34 @@ fn handshake_lengths(seed: u64, idx: usize, rep: &mut Report, rt: &tokio::runtim
             vec![r]
         }
     };
-    let out = panicmon::catch(|| rt.block_on(handshake(req)));
+    // deliveries: the request as the protocol phases give it, and - for the HTTP kinds, around the 255-byte boundary and at
+    // every 64th length - the same request head in two segments (behind the request line / inside the host / before its
+    // last byte): what the handshake accepts must not depend on where the segments end
+    let mut deliveries: Vec<(&'static str, Vec<Vec<u8>>, Option<u64>)> = vec![("whole", req.clone(), None)];
+    if via != Via::Socks5 && ((240..=300).contains(&len) || len % 64 == 0) {
+        let r = &req[0];
+        let line_end = r.windows(2).position(|w| w == b"\r\n").map(|p| p + 2).unwrap_or(r.len() / 2);
+        let host_at = if via == Via::HttpConnect { 8 } else { 11 };
+        for (label, cut) in [("cut-behind-the-request-line", line_end), ("cut-inside-the-host", host_at + len / 2 + 1), ("cut-before-the-last-byte", r.len() - 1), ("cut-inside-the-request-line-behind-the-host", (host_at + len + 3).min(r.len() - 1))] {
+            if cut > 0 && cut < r.len() {
+                deliveries.push((label, vec![r[..cut].to_vec(), r[cut..].to_vec()], Some(12)));
+            }
+        }
+    }
+    for (delivery, req, gap) in deliveries {
+    let out = panicmon::catch(|| rt.block_on(handshake(req, gap)));
     rep.evaluations += 1;
     rep.mon("local_handshakes_run", 1);
-    rep.distinct.insert(crate::report::hash_of(&(idx, &host)));
+    rep.distinct.insert(crate::report::hash_of(&(idx, &host, delivery)));
     let representable = !host.is_empty() && host.len() <= 255;
-    let w = json!({"seed": seed, "via": format!("{:?}", via), "alphabet": alphabet, "host_len": host.len(), "host": hex_short(&host), "port": port});
+    let w = json!({"seed": seed, "via": format!("{:?}", via), "alphabet": alphabet, "host_len": host.len(), "host": hex_short(&host), "port": port, "delivery": delivery});
     match out {
         Err(p) => rep.violation(format!("C14|handshake|{:?}|{}", via, p.signature()), "local handshake panicked", w),
         Ok(Err(e)) => rep.inconclusive(format!("handshake harness: {}", panicmon::normalise(&e))),
         Ok(Ok(Err(_refused))) => {
             rep.mon("refused", 1);
             // refusing is always safe; a representable LDH name must however be accepted
-            if representable && alphabet == 0 && !(via != Via::Socks5 && host.len() > 200) {
+            if representable && alphabet == 0 && !(via != Via::Socks5 && host.len() > 200) && delivery == "whole" {
                 rep.violation(format!("C14|handshake|{:?}|representable-name-refused", via), "a representable LDH host name was refused", w);
             }
         }
@@ -328,6 +349,7 @@ fn through_codecs(seed: u64, idx: u64, target: &Addr, rep: &mut Report) {
                 }
             }
         }
+    }
     }
 }
 
